@@ -270,6 +270,9 @@ func (c *Cache) InjectDevices(ociSpec *oci.Spec, devices ...string) ([]string, e
 // highestPrioritySpecDir returns the Spec directory with highest priority
 // and its priority.
 func (c *Cache) highestPrioritySpecDir() (string, int) {
+	c.Lock()
+	defer c.Unlock()
+
 	if len(c.specDirs) == 0 {
 		return "", -1
 	}
@@ -469,12 +472,12 @@ func (c *Cache) GetSpecDirectories() []string {
 
 // GetSpecDirErrors returns any errors related to configured Spec directories.
 func (c *Cache) GetSpecDirErrors() map[string]error {
+	c.Lock()
+	defer c.Unlock()
+
 	if c.dirErrors == nil {
 		return nil
 	}
-
-	c.Lock()
-	defer c.Unlock()
 
 	errors := make(map[string]error)
 	for dir, err := range c.dirErrors {
